@@ -69,3 +69,42 @@ package eval
 //@   ensures [isolated] all(c, 0, 1, pw2.isolatedPawns[c] == mirrorBB(pw1.isolatedPawns[c^1]))
 //@   ensures [attacks]  all(c, 0, 1, pw2.attacks[c][0] == mirrorBB(pw1.attacks[c^1][0]))
 //@
+//@ # ---- C17 (colour symmetry), cover / occupancy stage: the union of a colour's attack sets and the
+//@ # ---- occupancy computed for the mirror image are the mirror images of the original's
+//@ func (*pieceWise).calcCover
+//@   loop 1: unroll 2
+//@
+//@ scenario coverMirror(pw1 *pieceWise, pw2 *pieceWise)
+//@   props C17
+//@   requires all(c, 0, 1, all(k, 0, 5, pw2.attacks[c][k] == mirrorBB(pw1.attacks[c^1][k])))
+//@   do inline pw1.calcCover()
+//@   do inline pw2.calcCover()
+//@   ensures [cover] all(c, 0, 1, pw2.cover[c] == mirrorBB(pw1.cover[c^1]))
+//@
+//@ scenario occupancyMirror(b1 *Board, b2 *Board, pw1 *pieceWise, pw2 *pieceWise)
+//@   props C17
+//@   requires mirrored(b1, b2)
+//@   do inline pw1.calcOccupancy(b1)
+//@   do inline pw2.calcOccupancy(b2)
+//@   ensures [occ] pw2.occ == mirrorBB(pw1.occ)
+//@
+//@ # ---- C17 (colour symmetry), king stage: king squares, king attack sets, king rays and king
+//@ # ---- neighbourhoods computed for the mirror image are the mirror images of the original's, colours
+//@ # ---- exchanged (real body executed twice, callees by their C12 contracts, each side has one king)
+//@ func (*pieceWise).calcKingSquares
+//@   loop 1: unroll 2
+//@
+//@ scenario kingSquaresMirror(b1 *Board, b2 *Board, pw1 *pieceWise, pw2 *pieceWise)
+//@   props C17
+//@   requires mirrored(b1, b2)
+//@   requires pw2.occ == mirrorBB(pw1.occ)
+//@   requires all(c, 0, 1, (b1.Pieces[6] & b1.Colors[c]) != 0 && ((b1.Pieces[6] & b1.Colors[c]) & ((b1.Pieces[6] & b1.Colors[c]) - 1)) == 0)
+//@   use slidersSymmetric((b1.Pieces[6] & b1.Colors[0]).LowestSet(), pw1.occ)
+//@   use slidersSymmetric((b1.Pieces[6] & b1.Colors[1]).LowestSet(), pw1.occ)
+//@   do inline pw1.calcKingSquares(b1)
+//@   do inline pw2.calcKingSquares(b2)
+//@   ensures [kingSq]   all(c, 0, 1, pw2.kingSq[c] == pw1.kingSq[c^1] ^ 56)
+//@   ensures [kingNb]   all(c, 0, 1, pw2.kingNb[c] == mirrorBB(pw1.kingNb[c^1]))
+//@   ensures [kingAtt]  all(c, 0, 1, pw2.attacks[c][5] == mirrorBB(pw1.attacks[c^1][5]))
+//@   ensures [kingRays] all(c, 0, 1, all(k, 0, 1, pw2.kingRays[c][k] == mirrorBB(pw1.kingRays[c^1][k])))
+//@
